@@ -48,6 +48,66 @@ RESULT = (isinstance(Plain(), Iterable), isinstance(Cluster(), Iterable), isinst
           isinstance(d, MutableMapping), isinstance(types.MappingProxyType(d), Mapping), isinstance(types.MappingProxyType(d), MutableMapping), isinstance(iter([1]), Iterable), isinstance((1,), Hashable),
           isinstance(Cluster(), Sequence), isinstance(Cluster(), (int, Iterable)))
 ''', "(False, True, True, False, True, True, True, True, False, True, True, False, True)"),
+    ("hashable-abc-and-eq-without-hash", '''
+from collections.abc import Hashable
+class EqOnly:
+    def __eq__(self, other):
+        return True
+class EqAndHash:
+    def __eq__(self, other):
+        return True
+    def __hash__(self):
+        return 7
+class Child(EqOnly):
+    pass
+class Rehash(EqOnly):
+    __hash__ = object.__hash__
+class Plain:
+    pass
+def hashes(x):
+    try:
+        hash(x)
+        return True
+    except TypeError:
+        return False
+def probes(x, box):
+    try:
+        return x in box
+    except TypeError:
+        return "TypeError"
+RESULT = (isinstance(EqOnly(), Hashable), isinstance(EqAndHash(), Hashable), isinstance(Child(), Hashable), isinstance(Rehash(), Hashable), isinstance(Plain(), Hashable), isinstance([], Hashable),
+          hashes(EqOnly()), hashes(EqAndHash()), hashes(Child()), hashes(Plain()),
+          probes(EqOnly(), {}), probes((1, EqOnly()), {(1, 2): 3}), probes(EqOnly(), set()), probes(EqOnly(), []), probes([1], {1: 2}), probes(Plain(), {}), probes([1], frozenset()))
+''', "(False, True, False, True, True, False, False, True, False, True, 'TypeError', 'TypeError', 'TypeError', False, 'TypeError', False, 'TypeError')"),
+    ("generator-expressions-are-lazy", '''
+log = []
+def probe(x):
+    log.append(x)
+    if x == 3:
+        raise IndexError("three")
+    return x
+first = any(probe(x) == 1 for x in [1, 2, 3])          # stops at the first element: 3 is never probed
+box = [1, 2, 3]
+gen = (probe(x) for x in box)
+got = [next(gen)]
+box[1] = 20                                             # the consumer changes state between two elements
+got.append(next(gen))
+try:
+    next(gen)
+    tail = "no error"
+except IndexError:
+    tail = "IndexError after two elements"
+class K:
+    __slots__ = ()
+    __secret = 5
+    def m(self, ys):
+        return sum(self.__secret + y for y in ys)
+pairs = list((a, b) for a in (1, 2) for b in "xy" if a != 2 or b != "x")
+def outer(n):
+    k = 10
+    return tuple(k * i for i in range(n) if i % 2 == 0)
+RESULT = (first, log, got, tail, K().m([1, 2]), pairs, outer(5), list(x for x in ()))
+''', "(True, [1, 1, 20, 3], [1, 20], 'IndexError after two elements', 13, [(1, 'x'), (1, 'y'), (2, 'y')], (0, 20, 40), [])"),
     ("bytearray-buffer", '''
 buf = bytearray()
 alias = buf
